@@ -181,8 +181,8 @@ func (g *gen) word(n int, mixed bool) string {
 	return string(b)
 }
 
-// a string argument: words of letters and digits separated by blanks (no characters that need escaping,
-// none of ' . : _ whose word-joining in golang.org/x/text is not modelled)
+// a string argument: words of letters and digits separated by blanks (no characters that need escaping);
+// some with ' . : _ inside a word (each ends a word for ~:( and ~@( )
 func (g *gen) str() string {
 	n := g.r.Intn(4)
 	var ws []string
@@ -193,6 +193,9 @@ func (g *gen) str() string {
 		}
 		if g.r.Chance(10) {
 			w = w + "-" + g.word(2, true)
+		}
+		if g.r.Chance(12) {
+			w = w + common.Pick(g.r, []string{"'", ".", ":", "_"}) + g.word(1+g.r.Intn(2), true)
 		}
 		ws = append(ws, w)
 	}
@@ -213,7 +216,11 @@ func (g *gen) atom() val {
 		return vStr(g.str())
 	case x < 75:
 		// (the one-letter symbol t is the constant, and slip's reader turns 't into another symbol)
-		return vSym(g.word(2+g.r.Intn(2), false) + []string{"", "", "1", "2"}[g.r.Intn(4)])
+		name := g.word(2+g.r.Intn(2), false) + []string{"", "", "1", "2"}[g.r.Intn(4)]
+		if name == "nil" { // 'nil is the empty list, not a symbol of its own
+			return vNil
+		}
+		return vSym(name)
 	case x < 83:
 		return vChr(common.Pick(g.r, charPool))
 	case x < 90:
@@ -285,18 +292,23 @@ func (g *gen) numParam(cands []int, allowHash bool) (string, []val) {
 		return fmt.Sprint(n), nil
 	case x < 92 || !allowHash:
 		g.ctx.Hist("param:v")
-		if g.r.Chance(8) {
-			return "v", []val{vNil} // nil: the default
+		letter := "v"
+		if x%5 == 0 { // V is v (derived from the draw already made: the streams of the seeds stay what they were)
+			letter = "V"
+			g.ctx.Hist("param:V")
 		}
-		return "v", []val{vInt(int64(n))}
+		if g.r.Chance(8) {
+			return letter, []val{vNil} // nil: the default
+		}
+		return letter, []val{vInt(int64(n))}
 	default:
 		g.ctx.Hist("param:#")
 		return "#", nil
 	}
 }
 
-var padChars = []byte("0_ .-x*")    // x and * end a parameter in slip's scan map
-var commaChars = []byte("._ ,'|")  // , itself cannot be given in slip
+var padChars = []byte("0_ .-x*~(%&,:@{") // the character after ' is taken whatever it is: directive characters, comma, modifiers
+var commaChars = []byte("._ ,'|;]")
 
 func (g *gen) chrParam(pool []byte) (string, []val) {
 	c := common.Pick(g.r, pool)
@@ -305,8 +317,12 @@ func (g *gen) chrParam(pool []byte) (string, []val) {
 		return "'" + string(c), nil
 	}
 	g.ctx.Hist("param:v")
-	if c == ',' || c == '\'' {
-		c = '_' // slip's reader does not read these after #\
+	if strings.IndexByte("(){}[];%&'`", c) >= 0 {
+		c = '_' // slip's reader does not read these after #\ (not this property's subject); 'c covers them
+	}
+	if c == '.' || c == ' ' {
+		g.ctx.Hist("param:V")
+		return "V", []val{vChr(c)}
 	}
 	return "v", []val{vChr(c)}
 }
@@ -665,12 +681,8 @@ func (g *gen) condDir(depth int) piece {
 		if g.r.Chance(4) {
 			return piece{"~:[" + f.ctl + "~;" + t.ctl + "~]", nil} // no argument
 		}
-		if arg.k == kNil {
+		if arg.k == kNil || (arg.k == kList && len(arg.l) == 0) { // an empty list object is nil
 			return piece{"~:[" + f.ctl + "~;" + t.ctl + "~]", append([]val{arg}, f.args...)}
-		}
-		if arg.k == kList && len(arg.l) == 0 {
-			// an empty list object: the definition selects the false clause, slip the true one; give both their arguments
-			return piece{"~:[" + f.ctl + "~;" + t.ctl + "~]", append(append([]val{arg}, t.args...), f.args...)}
 		}
 		return piece{"~:[" + f.ctl + "~;" + t.ctl + "~]", append([]val{arg}, t.args...)}
 	case x < 35: // ~@[...~]
@@ -772,7 +784,8 @@ func (g *gen) iterDir(depth int) piece {
 		caret = true
 	case x < 20 && depth < 1:
 		// a nested block in the body
-		inner := common.Pick(g.r, []string{"~(~A~)", "~[a~;b~;c~]", "~:[n~;y~]", "~@[~A~]", "~{~A~}", "~2{<~A>~}", "~{~A~:}"})
+		inner := common.Pick(g.r, []string{"~(~A~)", "~[a~;b~;c~]", "~:[n~;y~]", "~@[~A~]", "~{~A~}", "~2{<~A>~}", "~{~A~:}",
+			"~3,'}D", "~1[a~;b~]~A", "~v{~A~}~:*", "~#[~;~A~:;<~A>~]"}) // closers after a quote, openers after parameters
 		bctl, per = inner+sep, 1
 	default:
 		bctl += sep
@@ -956,7 +969,7 @@ func printable(s string) bool {
 // count and allocate gigabytes; such combinations are not run (larger integers overflow int and are refused
 // by slip at once).
 func riskyWidth(p piece) bool {
-	hasV := strings.Contains(p.ctl, "v")
+	hasV := strings.ContainsAny(p.ctl, "vV")
 	var mid func(v val) bool
 	lo, hi := big.NewInt(2000), new(big.Int).Lsh(big.NewInt(1), 64)
 	mid = func(v val) bool {
@@ -965,7 +978,7 @@ func riskyWidth(p piece) bool {
 			a := new(big.Int).Abs(v.z)
 			return a.Cmp(lo) > 0 && a.Cmp(hi) < 0
 		case kStr:
-			if strings.Contains(v.s, "v") && strings.Contains(v.s, "~") {
+			if strings.ContainsAny(v.s, "vV") && strings.Contains(v.s, "~") {
 				hasV = true
 			}
 		case kList:
@@ -984,18 +997,6 @@ func riskyWidth(p piece) bool {
 		}
 	}
 	return hasV && risky && (strings.Contains(p.ctl, "*") || strings.Contains(p.ctl, "[") || strings.Contains(p.ctl, "?") || strings.Contains(p.ctl, "{"))
-}
-
-// hangRisk: after ~:* has moved the cursor before the first argument (slip does not refuse that), ~@{ never
-// ends and its output grows without bound; the abandoned goroutine would exhaust the memory of the run.
-func hangRisk(p piece) bool {
-	all := p.ctl
-	for _, a := range p.args {
-		if a.k == kStr {
-			all += a.s
-		}
-	}
-	return strings.Contains(all, ":*") && strings.Contains(all, "@{")
 }
 
 type caseRec struct {
@@ -1044,10 +1045,6 @@ func Run(ctx *common.Ctx) {
 			ctx.Hist("skipped:v-with-large-integer")
 			return
 		}
-		if hangRisk(p) {
-			ctx.Hist("skipped:backward-move-before-@{")
-			return
-		}
 		src := fmt.Sprintf(`(format nil "%s"%s)`, p.ctl, argForms(p.args))
 		if distinct[src] {
 			return
@@ -1062,8 +1059,8 @@ func Run(ctx *common.Ctx) {
 			return
 		}
 		if o.err == "timeout" {
-			// handed to the model as an observation of its own kind: the known cursor defect (~:* before the first
-			// argument, then ~@{ ) makes the Go loop spin, and the model's loop does the same
+			// handed to the model as an observation of its own kind (none is expected: the cursor cannot leave the
+			// argument list since repo_fixes/C15-15, which is what made ~@{ spin)
 			ctx.Hist("outcome:no-return")
 		}
 		// the three destinations
